@@ -108,8 +108,10 @@ def gen_cases(rng, tier):
         elif r < 0.13:
             cases.append({'kind': rng.choice(['iter', 'enum', 'len']), 'obj': G.gen_object(rng, shape), 'src': 'iter'})
         else:
-            cases.append({'kind': 'get', 'obj': G.gen_object(rng, shape), 'index': G.gen_index(rng, shape),
-                          'src': 'random'})
+            focus = len(shape) >= 1 and rng.random() < 0.3        # template-built multi-array indices
+            cases.append({'kind': 'get', 'obj': G.gen_object(rng, shape),
+                          'index': G.gen_focus_index(rng, shape) if focus else G.gen_index(rng, shape),
+                          'src': 'focus' if focus else 'random'})
     # every shape of the pool is iterated at least once
     for shape in G.LEAD_SHAPES:
         for kind in ('iter', 'enum', 'len'):
@@ -190,8 +192,10 @@ def run_case(c, Pm):
             res['ref'] = expect_get(before, ref)
             try:
                 idx = G.to_impl(c['index'], Pm)
+                snap = G.index_snapshot(idx)
                 r = q[idx]
                 res['impl'] = observe_result(r, Pm)
+                res['index_changed'] = G.index_snapshot(idx) != snap
             except Exception as e:          # noqa
                 res['impl'] = ('exc',) + lib.exc_family(e)
             if res['impl'] == ('other',):
@@ -249,6 +253,8 @@ def failure_kind(res):
     impl, ref = res['impl'], res['ref']
     if 'after' in res and not same_obj(res['after'], res['before']):
         return 'source_modified'
+    if res.get('index_changed'):
+        return 'index_object_modified'      # its next use would select / mask other elements
     if isinstance(impl, tuple) and impl[0] == 'exc':
         if ref == ('err',):
             return None if impl[1] == 'IndexError' else 'wrong_exception'
